@@ -233,6 +233,19 @@ def counter_step_rule(prog, chk):
                     if not hs:
                         stray = j
                     homes.update(hs[:1] if hs else [])
+                # the carry chain moved into a helper of the unit: the call that hands it the input block is the update site
+                cg = prog.callgraph()
+                for j, s_ in enumerate(f.insts):
+                    c2 = s_.get("callee")
+                    if s_["op"] != "call" or s_["b"] not in body or not c2 or c2[0] != "g" or j == i:
+                        continue
+                    g = prog.fn(c2[1], f.unit)
+                    if g is None or g.decl or not g.internal:
+                        continue
+                    for k, o in enumerate(s_.get("ops", [])):
+                        if aroot(o) == arr and k in cg.writes_params(g):
+                            stores.append((j, s_))
+                            homes.add(s_["b"])
                 n += 1
                 ok = bool(stores) and stray is None and len(homes) == 1 and pdom(next(iter(homes)), ins["b"])
                 why = ""
